@@ -54,3 +54,9 @@ def sizes2(ctx, L):
                 keep.append((h, w))
         out = keep
     return out
+
+
+def stable_hash(*parts):
+    """deterministic across processes (the builtin hash of str is salted per process)"""
+    import zlib
+    return zlib.crc32(repr(parts).encode())
